@@ -1069,6 +1069,7 @@ def alt_spelling(ch, v, ty):
 
 import re as _re
 _IDENT = _re.compile(r'"[^"]*"|\b(?:e|r|q|Rec|Adt)\d+\b|\bBr\d+x\d+\b')
+_BRANCH = _re.compile(r'\$(Br\d+x\d+)\b')
 
 
 def prefix_program(text, facts, pfx):
@@ -1077,4 +1078,5 @@ def prefix_program(text, facts, pfx):
     def sub(m):
         t = m.group(0)
         return t if t.startswith('"') else pfx + t
-    return _IDENT.sub(sub, text), {pfx + k: v for k, v in facts.items()}
+    # ADT values in fact files name their branch ($Br0x1(...)): the branch is renamed there as well (no generated symbol starts with $Br)
+    return _IDENT.sub(sub, text), {pfx + k: _BRANCH.sub(lambda m: "$" + pfx + m.group(1), v) for k, v in facts.items()}
